@@ -1,6 +1,6 @@
 (** Property C18 — the theorems the check counts as obligations.  Nothing but
     statements closed by [exact] and [Print Assumptions]. *)
-From HS Require Import Base.Prelude C18.Model C18.Causal C18.CRDT C18.VectorIff.
+From HS Require Import Base.Prelude Base.PyLib C18.Model C18.Causal C18.CRDT C18.VectorIff Gen.ClocksGen C18.GenTie C18.CodeSim.
 Local Open Scope Z_scope.
 
 (** a -> b  ==>  Lamport(a) < Lamport(b), every well-formed history. *)
@@ -84,3 +84,48 @@ Theorem c18_orset_no_lost_add_partial : forall ops r e,
   sp_contains e (sreps (os_run ops) r) = true -> os_contains e (oreps (os_run ops) r) = true.
 Proof. exact orset_no_lost_add_partial. Qed.
 Print Assumptions c18_orset_no_lost_add_partial.
+
+(* ------------------------------------------------------------------ *)
+(** * The same statements about the code as REGENERATED from the current source
+    (Gen/ClocksGen.v, written by harness/translate/py2coq.py on every run). *)
+
+(** Clock algebras assembled from the translated methods of LamportClock,
+    HybridLogicalClock / HLCTimestamp.__lt__ and VectorClock satisfy causality
+    (vector clocks: both directions) on every well-formed history. *)
+Theorem c18_code_lamport_causal : forall tr ts, stamps lamport_code tr = Some ts ->
+  forall i j, hb tr i j -> forall ti tj,
+  nth_error ts i = Some ti -> nth_error ts j = Some tj -> ti < tj.
+Proof. exact lamport_code_causal. Qed.
+Print Assumptions c18_code_lamport_causal.
+
+Theorem c18_code_hlc_causal : forall tr ts, stamps hlc_code tr = Some ts ->
+  forall i j, hb tr i j -> forall ti tj,
+  nth_error ts i = Some ti -> nth_error ts j = Some tj -> HLCTimestamp___lt__ ti tj = true.
+Proof. exact hlc_code_causal. Qed.
+Print Assumptions c18_code_hlc_causal.
+
+Theorem c18_code_vector_iff : forall tr ts, stamps vector_code tr = Some ts ->
+  forall i j ti tj, nth_error ts i = Some ti -> nth_error ts j = Some tj -> (dict_lt ti tj <-> hb tr i j).
+Proof. exact vector_code_iff. Qed.
+Print Assumptions c18_code_vector_iff.
+
+(** The translated CRDT methods, read through the abstraction functions, are
+    the model functions of the merge-law and convergence theorems above. *)
+Theorem c18_code_gcounter_refines : forall s n a b,
+  match GCounter_increment s n with
+  | None => n < 1 /\ gc_inc (GCounter__node_id s) n (gc_abs s) = gc_abs s
+  | Some (s', _) => 1 <= n /\ GCounter__node_id s' = GCounter__node_id s
+                    /\ forall k, gc_abs s' k = gc_inc (GCounter__node_id s) n (gc_abs s) k
+  end
+  /\ (dwf (GCounter__counts b) = true -> dnonneg (GCounter__counts a) ->
+      forall k, gc_abs (fst (GCounter_merge a b)) k = gc_merge (gc_abs a) (gc_abs b) k)
+  /\ (dwf (GCounter__counts s) = true ->
+      GCounter_value s = gc_value (map fst (GCounter__counts s)) (gc_abs s)).
+Proof. intros s n a b. exact (conj (tie_gc_increment s n) (conj (tie_gc_merge a b) (tie_gc_value s))). Qed.
+Print Assumptions c18_code_gcounter_refines.
+
+Theorem c18_code_lww_refines : forall r v t a b,
+  lww_abs (fst (LWWRegister_set r v t)) = lww_set v (ts_abs t) (lww_abs r)
+  /\ lww_abs (fst (LWWRegister_merge a b)) = lww_merge (lww_abs a) (lww_abs b).
+Proof. intros r v t a b. exact (conj (tie_lww_set r v t) (tie_lww_merge a b)). Qed.
+Print Assumptions c18_code_lww_refines.
